@@ -142,9 +142,26 @@ def run(tier, seed):
             lp = dr.loops()[0] if dr.loops() else None
             ok = False
             if lp:
-                latch_ok = all(any(f[0] == "ult" and getattr(dr.defn(M.strip(f[1])), "op", "") == "phi" for f in F.on_edge(l, lp["header"])) and
-                               any(f[0] == "ne" and M.match(("load", ("field", "LHADecoder", "outbuf_len", ANY)), f[1], {}) is not None for f in F.on_edge(l, lp["header"]))
-                               for l in lp["latches"])
+                def progress(l):
+                    """the back edge is taken only with filled < limit and with something to deliver next time round: a non-empty
+                    buffer, or a decoder run that wrote a non-zero number of bytes straight to the caller (added to the count)"""
+                    fs = F.on_edge(l, lp["header"])
+                    cnt = [dr.defn(M.strip(f[1])) for f in fs if f[0] == "ult" and getattr(dr.defn(M.strip(f[1])), "op", "") == "phi"]
+                    if not cnt:
+                        return False
+                    if any(f[0] == "ne" and M.match(("load", ("field", "LHADecoder", "outbuf_len", ANY)), f[1], {}) is not None for f in fs):
+                        return True
+                    for ph in cnt:
+                        for v, pb in ph.incoming:
+                            if pb != l:
+                                continue
+                            e = M.match(("bin", "add", ANY, ("bind", "n")), v, {})
+                            r = dr.defn(M.strip(e["n"])) if e is not None and e["n"][0] == "v" else None
+                            if r is not None and not r.is_param and r.op == "call" and not r.callee and \
+                                    any(f[0] == "ne" and M.strip(f[1]) == ("v", r.id) and is_const(f[2]) and const_val(f[2]) == 0 for f in fs):
+                                return True
+                    return False
+                latch_ok = all(progress(l) for l in lp["latches"])
                 exit_ok = any(M.find_fact(("eq", ("load", ("field", "LHADecoder", "outbuf_len", ANY)), 0), F.edge_facts(b, s))[0] is not None for (b, s) in lp["exits"])
                 ok = latch_ok and exit_ok
             rep.check(rid, ok, "S-fill: the fill loop repeats only with filled < limit and a non-empty buffer, and leaves when the decoder delivers nothing", dr.file, None,
